@@ -348,17 +348,19 @@ static void degenerate(vh::Rng& g, long n) {
           push3(v, 2 * m.V[1]); push3(v, Vec3(0, 0, 9)); push3(v, Vec3(0, 0, -1));
           caseMesh("box_special_points", v); }
     }
-    // deterministic witness of the region-6 defect: search random queries on one mesh until the class is hit
-    { vh::Rng h(12345); gm::Mesh m = gm::makeMesh(1, 777, 1); double L = 0; for (auto& p : m.V) L = std::max(L, p.norm());
-      TM mesh(m.vertices(), m.faceIndices(), false);
-      for (int tries = 0; tries < 20000; ++tries) {
-          Vec3 p = h.range(0.3, 1.6) * L * rndUnit(h); bool r6 = false; int ff = -1;
-          for (int f = 0; f < mesh.getNumFaces() && !r6; ++f) if (gm::eberlyRegion6Disagrees(p, mesh.getVertexPosition(mesh.getFaceVertex(f, 0)), mesh.getVertexPosition(mesh.getFaceVertex(f, 1)), mesh.getVertexPosition(mesh.getFaceVertex(f, 2)))) { r6 = true; ff = f; }
-          if (!r6) continue;
-          // regression witness of finding F12 (fixed in /repo by b3f19b8d): the first query of the class is replayed
-          { std::vector<double> v = {1, 777, 1, 1}; push3(v, p); push3(v, Vec3(0)); push3(v, Vec3(1, 0, 0)); caseMesh("region6_witness", v); break; }
-          (void)ff;
-      } }
+    // regression witness of finding F12 (point-triangle region 6; fixed in /repo by b3f19b8d): deterministic search over
+    // a fixed family of meshes for the first query that falls into the input class, which is then replayed
+    { vh::Rng h(12345); bool done = false;
+      for (int ms = 1; ms <= 400 && !done; ++ms) {
+          int kind = ms & 1; gm::Mesh m = gm::makeMesh(kind, ms, 1); double L = 0; for (auto& p : m.V) L = std::max(L, p.norm());
+          TM mesh(m.vertices(), m.faceIndices(), false);
+          for (int tries = 0; tries < 200 && !done; ++tries) {
+              Vec3 p = h.range(0.3, 1.6) * L * rndUnit(h);
+              for (int f = 0; f < mesh.getNumFaces() && !done; ++f)
+                  if (gm::eberlyRegion6Disagrees(p, mesh.getVertexPosition(mesh.getFaceVertex(f, 0)), mesh.getVertexPosition(mesh.getFaceVertex(f, 1)), mesh.getVertexPosition(mesh.getFaceVertex(f, 2)))) {
+                      std::vector<double> v = {(double)kind, (double)ms, 1, 1}; push3(v, p); push3(v, Vec3(0)); push3(v, Vec3(1, 0, 0));
+                      caseMesh("region6_witness", v); done = true; }
+          } } }
 }
 
 static void replay() {
